@@ -238,6 +238,12 @@ func Run(o Options) (*Report, error) {
 		ss := suites[kind]
 		devs = append(devs, &devT{name: name, d: d, kex: ss[rng.Intn(len(ss))], ciph: ciphers[rng.Intn(len(ciphers))]})
 	}
+	// the concurrent part meets a server that has just started: database reopened, fresh state objects,
+	// responders and handler, nothing warmed up by the sequential preparation
+	if err := w.Restart(); err != nil {
+		return nil, fmt.Errorf("restart: %w", err)
+	}
+	start := make(chan struct{})
 	rec := &recorder{w: w, slotOf: map[string]int{}, seen: map[string]int{}}
 	rep := &Report{N: o.N, Results: make([]Result, o.N)}
 	var wg sync.WaitGroup
@@ -282,6 +288,7 @@ func Run(o Options) (*Report, error) {
 				}
 				rep.Results[i] = r
 			}()
+			<-start
 			hk := func(proto string) *world.Hook {
 				if !o.Record {
 					return wrap(nil)
@@ -325,6 +332,7 @@ func Run(o Options) (*Report, error) {
 		wg.Add(1)
 		go func(i int) {
 			defer wg.Done()
+			<-start
 			d := w.NewDevice("")
 			var h *world.Hook
 			if o.Record {
@@ -335,6 +343,7 @@ func Run(o Options) (*Report, error) {
 			}
 		}(i)
 	}
+	close(start)
 	done := make(chan struct{})
 	go func() { wg.Wait(); close(done) }()
 	select {
